@@ -6,13 +6,13 @@ from vlib import *
 # Each lower-case token must map to a spelling that is its own case-folded NFC form (checked against cif_normalize at start).
 CONCS = [
     {"codes": {"a": "a", "A": "A", "b": "b", "B": "B", "bad": "a b"},
-     "names": {"_x": "_x", "_X": "_X", "_y": "_y", "_Y": "_Y", "_z": "_z", "bad": "x"},
+     "names": {"_x": "_x", "_X": "_X", "_y": "_y", "_Y": "_Y", "_z": "_z", "_w": "_w", "bad": "x"},
      "cats": {"k": "k", "k2": "kk"}, "unk_as_null": True},
     {"codes": {"a": "été.1", "A": "ÉTÉ.1", "b": "σ", "B": "Σ", "bad": ""},
-     "names": {"_x": "_ångström", "_X": "_ÅNGSTRÖM", "_y": "_y.σσ", "_Y": "_Y.Σσ", "_z": "_z[1]", "bad": "_"},
+     "names": {"_x": "_ångström", "_X": "_ÅNGSTRÖM", "_y": "_y.σσ", "_Y": "_Y.Σσ", "_z": "_z[1]", "_w": "_w.\u03c9", "bad": "_"},
      "cats": {"k": "cat one", "k2": "É"}, "unk_as_null": False},
     {"codes": {"a": "strasse", "A": "STRAßE", "b": "b", "B": "B", "bad": "x\ty"},
-     "names": {"_x": "_\U00010428", "_X": "_\U00010400", "_y": "_y", "_Y": "_Y", "_z": "_z", "bad": "_a b"},
+     "names": {"_x": "_\U00010428", "_X": "_\U00010400", "_y": "_y", "_Y": "_Y", "_z": "_z", "_w": "_w", "bad": "_a b"},
      "cats": {"k": "K", "k2": "k"}, "unk_as_null": True},
 ]
 VALUES = {
